@@ -534,7 +534,8 @@ impl TextOwn {
         requires self.words@.len() <= 1, old(lang).wf(), self.aligned(),
             self.words@.len() == 1 ==> self.words@[0].slice.0 == 0 && self.words@[0].slice.1 == self.chars@.len() && self.words@[0].offset == 0,
         ensures final(lang).reduce_map == old(lang).reduce_map, final(lang).compose_map == old(lang).compose_map, final(lang).pos_map == old(lang).pos_map, final(lang).char_map == old(lang).char_map,
-            ret.aligned(), ret.words@.len() == self.words@.len(), ret.classes@ == self.classes@,
+            ret.aligned(), // [C15 C02 C01]
+            ret.words@.len() == self.words@.len(), ret.classes@ == self.classes@,
             ret.words@.len() == 1 ==> ret.words@[0].slice.0 == 0 && ret.words@[0].slice.1 == ret.chars@.len() && ret.words@[0].offset == 0 && ret.words@[0].fin == self.words@[0].fin,
     {
         let mut __self = self;
